@@ -92,3 +92,17 @@ def solver_inputs(ev):
     A = a.get("A") or a.get("0")
     b = a.get("b") or a.get("1")
     return A, b
+
+
+def level_array(p):
+    """the 2-D array stored as self.pseudopressure on this path"""
+    st = [e for e in p.events if e.kind == "store_attr" and e.data["attr"] == "pseudopressure" and isinstance(e.data["value"], Arr2)]
+    return st[-1].data["value"] if st else None
+
+
+def initial_row(p):
+    """explicit vector written to level 0 (None if level 0 was not written with a constant index)"""
+    arr = level_array(p)
+    if arr is None:
+        return None
+    return arr.rows.get(nf.key({}))
